@@ -69,7 +69,10 @@ bool index_read(zckCtx *zck, char *data, size_t size, size_t max_length) {
     size_t idx_loc = 0;
     int count = 0;
     while(length < size) {
-        if(length + zck->index.digest_size > max_length) {
+        /* An entry starts with the chunk digest, followed by the uncompressed
+         * digest if the file has one */
+        if(length + zck->index.digest_size *
+                    (zck->has_uncompressed_source ? 2 : 1) > max_length) {
             set_fatal_error(zck, "Read past end of header");
             return false;
         }
